@@ -45,6 +45,10 @@ func pkgNameOf(dir string) string {
 // overlayFiles builds the virtual harness files for all packages:
 // /repo/<pkg>/zz_verif_rt.go, zz_verif_<name>.go, zz_verif_reg.go.
 func overlayFiles(only map[string]bool) (map[string][]byte, map[string][]string, error) {
+	return overlayFilesT(only, false)
+}
+
+func overlayFilesT(only map[string]bool, withTests bool) (map[string][]byte, map[string][]string, error) {
 	ov := map[string][]byte{}
 	harnesses := map[string][]string{} // dir -> harness function names
 	tmpl, err := os.ReadFile(filepath.Join(verifDir, "harness", "rt.go.tmpl"))
@@ -70,6 +74,9 @@ func overlayFiles(only map[string]bool) (map[string][]byte, map[string][]string,
 				return nil, nil, err
 			}
 			if strings.HasSuffix(f, "_test.go") {
+				if withTests {
+					ov[filepath.Join(base, "zz_verif_"+filepath.Base(f))] = src
+				}
 				continue
 			}
 			ov[filepath.Join(base, "zz_verif_"+filepath.Base(f))] = src
